@@ -107,6 +107,24 @@ def build_session(rng, tmp, nops, metrics):
             key = [Xi, [H.content_id(e) for e in extra]]
             for twin in range(2):
                 o = s.new_model(kind, group, **cfg)
+                if twin == 1 and rng.random() < 0.5:
+                    # "for all call histories": the second object has a past (fitted and used on unrelated, easy data)
+                    import numpy as _np
+                    m_ = s.objs[o]["m"]
+                    yy_ = _np.array([j % 2 for j in range(8)])
+                    Xe_ = _np.abs(_np.random.default_rng(7).normal(size=(8, 2))) * 0.1 + 1.0 + 10.0 * yy_[:, None]
+                    try:
+                        if kind == "sup":
+                            m_.fit(Xe_, yy_)
+                        elif kind == "semi":
+                            m_.fit(Xe_, yy_, Xe_[:2] + 0.05)
+                        elif kind == "knn":
+                            m_.fit(Xe_, yy_, Xe_[:4] + 0.05, yy_[:4])
+                        else:
+                            m_.fit(Xe_, yy_)
+                        m_.predict(Xe_[:3] + 0.01)
+                    except Exception:
+                        pass
                 s.fit(o, 1, s.pool[Xi], s.pool[iY], extra, data_key=[s.I("arr", s.pool[Xi]), s.I("arr", s.pool[iY])] + key[1])
                 s.predict(o, 1, s.pool[iXv])
         else:
